@@ -12,7 +12,7 @@ ID = 'C01'
 LEVEL = 'exploration'
 CLASSES = [('fault_free', 1)]
 RULE = ('seeded writer call histories (0-1 main preamble/meta, 1..3 changes, '
-        '1..3 files, per-call encoding override from 21 stateless codecs, '
+        '1..3 files, per-call encoding override from 23 stateless codecs, '
         'indent {0,1,2,4,7,40,default}, line_endings {unset,unix,dos}, '
         'hostile text alphabet) in 1-3 interleaved pipelines, 12 % of the '
         'readers following their file while it is written; non-trivial = '
@@ -24,7 +24,7 @@ ASSUMPTIONS = [
     'short reads on the content read, short writes and non-seekable inputs '
     'are outside the claim',
     'texts contain no lone surrogates; metadata is JSON-native (str keys, '
-    'finite floats); codecs are the 21 stateless ones of the catalogue under '
+    'finite floats); codecs are the 23 stateless ones of the catalogue under '
     'their canonical spelling (other spellings: C15)',
     'indent passed as an int >= 0 (explicit None is not generated)',
 ]
